@@ -41,6 +41,9 @@ DOMAINS = {
     "neg": (Fraction(-3), Fraction(5)),
     "end0": (Fraction(-1), Fraction(1)),      # ends exactly at 0
     "allneg": (Fraction(-5), Fraction(3)),    # entirely negative
+    "nano": (Fraction(0), Fraction(1, 2 ** 30)),          # ~1e-9 wide
+    "julian": (Fraction(2 ** 21), Fraction(64)),          # offset ~2.1e6 >> spread
+    "giga": (Fraction(0), Fraction(2 ** 30)),             # ~1e9 wide
 }
 
 
@@ -115,13 +118,13 @@ def _bandwidth(rng: Rng, n, dim, wide):
 def _lp_case(rng: Rng, tier, force=None):
     force = force or {}
     dim = force.get("dim", rng.choice([1, 1, 1, 2]))
-    dom = force.get("dom", rng.choice(["unit", "unit", "doy", "shift1000", "milli", "neg", "end0", "allneg"]))
+    dom = force.get("dom", rng.choice(["unit", "unit", "doy", "shift1000", "milli", "neg", "end0", "allneg", "nano", "julian", "giga"]))
     lo, scale = DOMAINS[dom]
     kernel = force.get("kernel", rng.choice(KERNELS))
     degree = force.get("degree", rng.choice([0, 1, 1, 2, 2, 3]))
     big = tier == "thorough"
     if dim == 1:
-        n = rng.choice([5, 6, 8, 12, 20, 33, 50, 64] + ([100, 200] if big or rng.random() < 0.15 else []))
+        n = rng.choice([5, 6, 8, 12, 20, 33, 50, 64] + ([100, 129, 200, 201, 257] if big or rng.random() < 0.15 else []))
         kind = rng.choice(["uniform", "scattered", "scattered", "unsorted", "ties"])
         g = _unit_points(rng, n, "scattered" if kind == "unsorted" else kind)
         g2 = None
@@ -141,7 +144,8 @@ def _lp_case(rng: Rng, tier, force=None):
     wide = rng.random() < 0.6
     hu = _bandwidth(rng, n, dim, wide)
     ykind = rng.choice(["rand", "rand", "smooth", "step", "const"])
-    y = _responses(rng, n, g, ykind)
+    amp = rng.choice([Fraction(1), Fraction(1), Fraction(1), Fraction(2 ** 20), Fraction(1, 2 ** 20)])
+    y = [amp * t for t in _responses(rng, n, g, ykind)]
     y2 = rng.dyadics(n, -4, 4, 3)
     if dim == 1:
         coefs = [rng.dyadic(-2, 2, 2) for _ in range(degree + 1)]
@@ -303,6 +307,18 @@ def reference_wls(x, y, q, h, kernel, degree):
     return ests, conds, npos
 
 
+def _inplace_design(case):
+    """Second design / query set of the in-place history, as exact rationals: the sampling points reflected about
+    the middle of their range (per coordinate), the query points contracted half-way towards it."""
+    xr, qc = [], []
+    for kx, kq in (("x", "q"), ("x2", "q2"))[: case["dim"]]:
+        xs, qs = _Fv(case[kx]), _Fv(case[kq])
+        lo, hi = min(xs), max(xs)
+        xr.append([lo + hi - t for t in xs])
+        qc.append([(t + (lo + hi) / 2) / 2 for t in qs])
+    return xr, qc
+
+
 def run_impl(case):
     from FDApy.preprocessing.smoothing import local_polynomial as lpm
     from FDApy.preprocessing.smoothing.local_polynomial import LocalPolynomial
@@ -345,10 +361,23 @@ def run_impl(case):
     out["base2"] = lp.predict(y=y2, x=x, x_new=q).tolist()
     out["lin"] = lp.predict(y=al * y + be * y2, x=x, x_new=q).tolist()
     out["poly"] = lp.predict(y=yp, x=x, x_new=q).tolist()
-    # common rescaling / shift of sampling points, query points and bandwidth
-    shift = np.array([b, float(F(case["b2"]))]) if case["dim"] == 2 else b
-    lpa = LocalPolynomial(kernel_name=case["kernel"], bandwidth=abs(a) * h, degree=case["degree"])
-    out["affine"] = lpa.predict(y=y, x=a * x + shift, x_new=a * q + shift).tolist()
+    # common rescaling / shift of sampling points, query points and bandwidth — mapped in exact arithmetic; the
+    # clause is only evaluated when the mapped numbers are exactly representable (otherwise the inputs themselves differ)
+    aF, bs = F(case["a"]), [F(case["b"])] + ([F(case["b2"])] if case["dim"] == 2 else [])
+    cols_x, cols_q, exact = [], [], True
+    for (kx, kq), bF in zip((("x", "q"), ("x2", "q2")), bs):
+        for key, cols in ((kx, cols_x), (kq, cols_q)):
+            ex = [aF * t + bF for t in _Fv(case[key])]
+            fv = [float(t) for t in ex]
+            exact = exact and all(Fraction(f) == t for f, t in zip(fv, ex))
+            cols.append(np.array(fv))
+    hF = abs(aF) * F(case["h"])
+    exact = exact and Fraction(float(hF)) == hF
+    xa = cols_x[0] if case["dim"] == 1 else np.column_stack(cols_x)
+    qa = cols_q[0] if case["dim"] == 1 else np.column_stack(cols_q)
+    lpa = LocalPolynomial(kernel_name=case["kernel"], bandwidth=float(hF), degree=case["degree"])
+    out["affine"] = lpa.predict(y=y, x=xa, x_new=qa).tolist()
+    out["affine_exact"] = bool(exact)
     perm = case["perm"]
     out["perm"] = lp.predict(y=y[perm], x=x[perm], x_new=q).tolist()
     out["single"] = [float(lp.predict(y=y, x=x, x_new=q[j : j + 1])[0]) for j in range(len(q))]
@@ -358,6 +387,34 @@ def run_impl(case):
     lph.predict(y=y2, x=x, x_new=q[:1])
     lph.kernel_name, lph.bandwidth, lph.degree = case["kernel"], h, case["degree"]
     out["hist"] = lph.predict(y=y, x=x, x_new=q).tolist()
+    # history on one object with the caller's arrays modified IN PLACE between the calls (one buffer reused for
+    # successive designs / query sets); every step is compared with a fresh object
+    xr, qc = _inplace_design(case)
+    xr_np = np.array(fl(xr[0])) if case["dim"] == 1 else np.column_stack([np.array(fl(xr[0])), np.array(fl(xr[1]))])
+    qc_np = np.array(fl(qc[0])) if case["dim"] == 1 else np.column_stack([np.array(fl(qc[0])), np.array(fl(qc[1]))])
+    lpi = LocalPolynomial(kernel_name=case["kernel"], bandwidth=h, degree=case["degree"])
+    xb, yb, qb = x.copy(), y.copy(), q.copy()
+    out["inpl1"] = lpi.predict(y=yb, x=xb, x_new=qb).tolist()
+    xb[:] = x[perm]
+    yb[:] = y[perm]
+    out["inpl2"] = lpi.predict(y=yb, x=xb, x_new=qb).tolist()          # same data in another order: = base
+    xb[:] = xr_np
+    yb[:] = y
+    out["inpl3"] = lpi.predict(y=yb, x=xb, x_new=qb).tolist()          # another design in the same buffer
+    out["inpl3_fresh"] = LocalPolynomial(kernel_name=case["kernel"], bandwidth=h, degree=case["degree"]).predict(y=y, x=xr_np.copy(), x_new=q.copy()).tolist()
+    qb[:] = qc_np
+    out["inpl4"] = lpi.predict(y=yb, x=xb, x_new=qb).tolist()          # other query points in the same buffer
+    out["inpl4_fresh"] = LocalPolynomial(kernel_name=case["kernel"], bandwidth=h, degree=case["degree"]).predict(y=y, x=xr_np.copy(), x_new=qc_np.copy()).tolist()
+    yb[:] = y2
+    out["inpl5"] = lpi.predict(y=yb, x=xb, x_new=qb).tolist()          # other responses in the same buffer
+    out["inpl5_fresh"] = LocalPolynomial(kernel_name=case["kernel"], bandwidth=h, degree=case["degree"]).predict(y=y2, x=xr_np.copy(), x_new=qc_np.copy()).tolist()
+    _, cond4, npos4 = reference_wls(xr_np, y, qc_np, h, case["kernel"], case["degree"])
+    out["_cond4"], out["_npos4"] = cond4, npos4
+    # memory layout: strided (non-contiguous) views and Fortran order of the same numbers
+    xs, ys, qs = np.repeat(x, 2, axis=0)[::2], np.repeat(y, 2)[::2], np.repeat(q, 2, axis=0)[::2]
+    if case["dim"] == 2:
+        xs, qs = np.asfortranarray(xs), np.asfortranarray(qs)
+    out["strided"] = lp.predict(y=ys, x=xs, x_new=qs).tolist()
     # locality: change the responses that lie outside every query window (compact kernels)
     if case["kernel"] != "gaussian":
         d = np.abs(x[:, None] - q[None, :]) if case["dim"] == 1 else np.sqrt(((x[:, None, :] - q[None, :, :]) ** 2).sum(axis=2))
@@ -390,9 +447,13 @@ def model_lines(case, impl):
         if what == "kernel_unknown":
             return ["lp1 boxcar 1 1 0,1,2 1,2,3 1"]
         return []  # a negative degree is not representable in the model (ℕ)
+    xr, qc = _inplace_design(case)
+    R = lambda v: J(rs(t) for t in v)  # noqa: E731
     if case["dim"] == 1:
-        return [f"lp1 {case['kernel']} {case['h']} {case['degree']} {J(case['x'])} {J(case['y'])} {J(case['q'])}"]
-    return [f"lp2 {case['kernel']} {case['h']} {case['degree']} {J(case['x'])} {J(case['x2'])} {J(case['y'])} {J(case['q'])} {J(case['q2'])}"]
+        return [f"lp1 {case['kernel']} {case['h']} {case['degree']} {J(case['x'])} {J(case['y'])} {J(case['q'])}",
+                f"lp1 {case['kernel']} {case['h']} {case['degree']} {R(xr[0])} {J(case['y'])} {R(qc[0])}"]
+    return [f"lp2 {case['kernel']} {case['h']} {case['degree']} {J(case['x'])} {J(case['x2'])} {J(case['y'])} {J(case['q'])} {J(case['q2'])}",
+            f"lp2 {case['kernel']} {case['h']} {case['degree']} {R(xr[0])} {R(xr[1])} {J(case['y'])} {R(qc[0])} {R(qc[1])}"]
 
 
 def parse_model(case, outs):
@@ -400,7 +461,7 @@ def parse_model(case, outs):
         return dict(k=outs[0], monos=outs[1])
     if case["kind"] == "reject":
         return dict(err=outs[0])
-    return dict(est=outs[0].split(","))
+    return dict(est=outs[0].split(","), est4=outs[1].split(","))
 
 
 def _scale(case):
@@ -473,6 +534,12 @@ def compare(case, impl, model):
             continue
         if not close(f, Fraction(m), sc, RTOL_MODEL):
             ds.append(f"query {j} (x0={case['q'][j]}{',' + case['q2'][j] if case['dim'] == 2 else ''}): impl {f!r} vs exact weighted least squares {float(Fraction(m))!r} (response scale {sc:.3g}, cond {impl['_cond'][j]:.3g})")
+    need = case["degree"] + 1 if case["dim"] == 1 else len(monos2(case["degree"]))
+    for j, (f, m, c, k) in enumerate(zip(impl["inpl4"], model["est4"], impl["_cond4"], impl["_npos4"])):
+        if not np.isfinite(f):
+            ds.append(f"in-place history, query {j}: non-finite estimate {f!r}")
+        elif m != "s" and np.isfinite(c) and c <= COND_OK and k >= need and not close(f, Fraction(m), sc, RTOL_MODEL):
+            ds.append(f"in-place history (design and queries replaced inside the caller's buffers), query {j}: impl {f!r} vs exact weighted least squares {float(Fraction(m))!r}")
     return ds[:4]
 
 
@@ -516,7 +583,7 @@ def oracle(case, impl):
         return vs
     st = _status(case, impl)
     sc = _scale(case)
-    dom = [case["dom"]] + (["away_from_unit_interval"] if case["dom"] not in ("unit", "neg", "end0") else [])
+    dom = [case["dom"]] + (["away_from_unit_interval"] if case["dom"] not in ("unit", "neg", "end0", "nano") else [])
     q = case["q"]
 
     def near(f, g, scale, tol=RTOL_ORACLE):
@@ -534,7 +601,7 @@ def oracle(case, impl):
         if not near(f, impl["_ref"][j], sc):
             bad("wls", f"estimate {f!r} but kernel-weighted polynomial least squares gives {impl['_ref'][j]!r} at {where}", dom)
         # invariance under a common shift/rescaling of sampling points, query points and bandwidth
-        if not near(impl["affine"][j], f, sc):
+        if impl.get("affine_exact", True) and not near(impl["affine"][j], f, sc):
             bad("shift_scale", f"estimate {f!r} becomes {impl['affine'][j]!r} after x -> {case['a']} x + {case['b']} (bandwidth x |a|) at {where}", dom)
         # linear in the responses
         al, be = float(F(case["alpha"])), float(F(case["beta"]))
@@ -556,6 +623,21 @@ def oracle(case, impl):
         # pointwise: the other query points do not matter
         if not near(impl["single"][j], f, sc, 1e-10):
             bad("pointwise", f"estimate {f!r} in a batch vs {impl['single'][j]!r} alone at {where}", dom)
+    # histories with the caller's arrays changed in place; memory layout
+    sc2h = max([abs(float(F(t))) for t in case["y2"]] + [1e-300])
+    for name, ref, scale, what in (("inpl1", "base", sc, "first call on a fresh object"),
+                                   ("inpl2", "perm", sc, "sampling points and responses permuted inside the caller's buffers"),
+                                   ("inpl3", "inpl3_fresh", sc, "another design written into the same buffer"),
+                                   ("inpl4", "inpl4_fresh", sc, "other query points written into the same buffer"),
+                                   ("inpl5", "inpl5_fresh", sc2h, "other responses written into the same buffer")):
+        for j, (f, g) in enumerate(zip(impl[name], impl[ref])):
+            if not near(f, g, scale, 1e-9):
+                bad("history_independent", f"{what}: the reused object gives {f!r}, a fresh object {g!r} (query {j}, {case['kernel']}, degree {case['degree']}, n={case['n']}, dim {case['dim']})", dom + ["inplace"])
+                break
+    for j, (f, g) in enumerate(zip(impl["strided"], impl["base"])):
+        if not near(f, g, sc, 1e-10):
+            bad("memory_layout", f"strided / Fortran-ordered inputs give {f!r}, contiguous ones {g!r} (query {j})", dom)
+            break
     # locality (compact kernels): responses outside every window are irrelevant (all queries, also ill-conditioned ones)
     if "local" in impl:
         for j, (f, g) in enumerate(zip(impl["base"], impl["local"])):
